@@ -13,11 +13,13 @@ import (
 	"fmt"
 	"os"
 	"os/exec"
+	"os/signal"
 	"path/filepath"
 	"regexp"
 	"sort"
 	"strconv"
 	"strings"
+	"syscall"
 
 	"github.com/restic/restic/internal/backend"
 	"github.com/restic/restic/internal/backend/local"
@@ -73,6 +75,11 @@ func c36Child(planFile string) {
 		fmt.Fprintln(os.Stderr, err)
 		os.Exit(3)
 	}
+	if v := os.Getenv("VERIF_C36_FSIZE"); v != "" {
+		lim, _ := strconv.ParseUint(v, 10, 64)
+		signal.Ignore(syscall.SIGXFSZ)
+		_ = syscall.Setrlimit(syscall.RLIMIT_FSIZE, &syscall.Rlimit{Cur: lim, Max: lim})
+	}
 	for i, l := range ls[1:] {
 		f := strings.Fields(l)
 		size, _ := strconv.Atoi(f[2])
@@ -113,9 +120,10 @@ var (
 )
 
 type c36Sys struct {
-	name string
-	args string
-	ret  int
+	name  string
+	args  string
+	ret   int
+	errno string
 }
 
 // c36Parse merges unfinished/resumed pairs and returns completed syscalls in completion order.
@@ -151,7 +159,14 @@ func c36Parse(path string) ([]c36Sys, error) {
 		if err != nil {
 			continue
 		}
-		out = append(out, c36Sys{c[1], c[2], ret})
+		errno := ""
+		if f := strings.Fields(c[4]); len(f) > 0 {
+			errno = f[0]
+		}
+		if ret < 0 && (errno == "EINTR" || errno == "EAGAIN" || strings.HasPrefix(errno, "ERESTART")) {
+			continue // interrupted and restarted by the Go runtime: not an error path of Save
+		}
+		out = append(out, c36Sys{c[1], c[2], ret, errno})
 	}
 	return out, sc.Err()
 }
@@ -217,6 +232,7 @@ func c36Abstract(root string, calls []c36Sys) c36Obs {
 			}
 			if c.ret < 0 {
 				o.failed++
+				add("SFail 1%N", c.name+"!"+c.errno)
 				continue
 			}
 			fds[c.ret] = true
@@ -239,6 +255,7 @@ func c36Abstract(root string, calls []c36Sys) c36Obs {
 			}
 			if c.ret < 0 {
 				o.failed++
+				add("SFail 8%N", c.name+"!"+c.errno)
 				continue
 			}
 			add(fmt.Sprintf("SMkdir %d%%N", dirNo(strs[0])), "mkdir")
@@ -256,6 +273,16 @@ func c36Abstract(root string, calls []c36Sys) c36Obs {
 			}
 			if c.ret < 0 {
 				o.failed++
+				k := 9
+				switch c.name {
+				case "write", "pwrite64", "writev":
+					k = 2
+				case "fsync", "fdatasync":
+					k = 3
+				case "fallocate":
+					k = 7
+				}
+				add(fmt.Sprintf("SFail %d%%N", k), c.name+"!"+c.errno)
 				continue
 			}
 			switch c.name {
@@ -287,6 +314,7 @@ func c36Abstract(root string, calls []c36Sys) c36Obs {
 			}
 			if c.ret < 0 {
 				o.failed++
+				add("SFail 4%N", c.name+"!"+c.errno)
 				continue
 			}
 			d1, n1 := file(strs[0])
@@ -298,6 +326,7 @@ func c36Abstract(root string, calls []c36Sys) c36Obs {
 			}
 			if c.ret < 0 {
 				o.failed++
+				add("SFail 5%N", c.name+"!"+c.errno)
 				continue
 			}
 			d, n := file(strs[0])
@@ -308,6 +337,7 @@ func c36Abstract(root string, calls []c36Sys) c36Obs {
 			}
 			if c.ret < 0 {
 				o.failed++
+				add("SFail 6%N", c.name+"!"+c.errno)
 				continue
 			}
 			d, n := file(strs[0])
@@ -414,45 +444,101 @@ func engineC36(c *vctx) error {
 	if err != nil {
 		return err
 	}
-	traceFile := filepath.Join(c.dir, "strace.txt")
-	cmd := exec.Command("timeout", "600", "strace", "-f", "-s", "0", "-o", traceFile, "-e", "trace="+c36Trace,
-		self, "C36", c.tier, "1", filepath.Join(c.dir, "child"))
-	cmd.Env = append(os.Environ(), "RESTIC_VERIF=1", "VERIF_C36_CHILD="+planFile)
-	if out, err := cmd.CombinedOutput(); err != nil {
-		return fmt.Errorf("strace child failed: %v: %s", err, string(out))
+	runChild := func(tag, planFile string, nplan int, straceArgs, env []string) (map[int][]c36Sys, map[int]bool, error) {
+		traceFile := filepath.Join(c.dir, "strace-"+tag+".txt")
+		args := append([]string{"600", "strace", "-f", "-s", "0", "-o", traceFile, "-e", "trace=" + c36Trace}, straceArgs...)
+		args = append(args, self, "C36", c.tier, "1", filepath.Join(c.dir, "child"))
+		cmd := exec.Command("timeout", args...)
+		cmd.Env = append(append(os.Environ(), "RESTIC_VERIF=1", "VERIF_C36_CHILD="+planFile), env...)
+		if out, err := cmd.CombinedOutput(); err != nil {
+			return nil, nil, fmt.Errorf("strace child failed: %v: %s", err, string(out))
+		}
+		calls, err := c36Parse(traceFile)
+		if err != nil {
+			return nil, nil, err
+		}
+		c.Hist("strace-runs")
+		// split by markers
+		segs := map[int][]c36Sys{}
+		errs := map[int]bool{}
+		cur := -1
+		for _, s := range calls {
+			if s.name == "openat" || s.name == "open" {
+				strs := c36Strings(s.args)
+				if len(strs) > 0 && strings.HasPrefix(strs[0], c36Marker) {
+					m := strings.TrimPrefix(strs[0], c36Marker)
+					f := strings.Split(m, "-")
+					i, _ := strconv.Atoi(f[1])
+					if f[0] == "begin" {
+						cur = i
+					} else {
+						errs[i] = len(f) > 2 && f[2] == "err"
+						cur = -1
+					}
+					continue
+				}
+			}
+			if cur >= 0 {
+				segs[cur] = append(segs[cur], s)
+			}
+		}
+		if len(segs) != nplan {
+			return nil, nil, fmt.Errorf("strace %s: %d of %d saves found in the trace", tag, len(segs), nplan)
+		}
+		return segs, errs, nil
 	}
-	calls, err := c36Parse(traceFile)
+	segs, errs, err := runChild("main", planFile, len(plan), nil, nil)
 	if err != nil {
 		return err
 	}
-	c.Info("strace_syscalls", len(calls))
 
-	// ---- split by markers ----
-	segs := map[int][]c36Sys{}
-	errs := map[int]bool{}
-	cur := -1
-	for _, s := range calls {
-		if s.name == "openat" || s.name == "open" {
-			strs := c36Strings(s.args)
-			if len(strs) > 0 && strings.HasPrefix(strs[0], c36Marker) {
-				m := strings.TrimPrefix(strs[0], c36Marker)
-				f := strings.Split(m, "-")
-				i, _ := strconv.Atoi(f[1])
-				if f[0] == "begin" {
-					cur = i
-				} else {
-					errs[i] = len(f) > 2 && f[2] == "err"
-					cur = -1
-				}
-				continue
-			}
-		}
-		if cur >= 0 {
-			segs[cur] = append(segs[cur], s)
+	// ---- error paths: one Save per child, one syscall made to fail (strace fault injection counts per
+	// thread; the child runs inside init(), i.e. locked to the main thread) or the file size limited ----
+	type faultRun struct {
+		kind   string
+		fp     string // Coq failpoint or ""
+		inject []string
+		env    []string
+		save   c36Save
+	}
+	var faults []faultRun
+	nf := c.n(1, 6)
+	for r := 0; r < nf; r++ {
+		for _, rd := range []string{"bytes", "file"} {
+			sz := 1000 + rng.intn(100000)
+			typ := rng.pick("data", "snapshots", "index")
+			mk := func() c36Save { return c36Save{typ, newID(), sz, rd, false} }
+			faults = append(faults,
+				faultRun{"fail-fsync", "(Some FPFsync)", []string{"-e", "inject=fsync:error=EIO:when=1"}, nil, mk()},
+				faultRun{"fail-rename", "(Some FPRename)", []string{"-e", "inject=rename,renameat,renameat2:error=EIO:when=1"}, nil, mk()},
+				faultRun{"fail-write", "(Some (FPWrite true))", nil, []string{fmt.Sprintf("VERIF_C36_FSIZE=%d", rng.intn(sz))}, mk()},
+				faultRun{"fail-dirfsync", "None", []string{"-e", "inject=fsync:error=EIO:when=2"}, nil, mk()},
+				faultRun{"fail-chmod", "None", []string{"-e", "inject=fchmodat,chmod:error=EIO:when=1"}, nil, mk()})
 		}
 	}
-	if len(segs) != len(plan) {
-		return fmt.Errorf("strace: %d of %d saves found in the trace", len(segs), len(plan))
+	type faultObs struct {
+		f   faultRun
+		seg []c36Sys
+		err bool
+	}
+	var fobs []faultObs
+	for k, f := range faults {
+		src := "-"
+		if f.save.reader == "file" {
+			src = filepath.Join(srcDir, fmt.Sprintf("fsrc-%d", k))
+			if err := os.WriteFile(src, c36Payload(f.save.name, f.save.size), 0o600); err != nil {
+				return err
+			}
+		}
+		pf := filepath.Join(c.dir, fmt.Sprintf("plan-fault-%d.txt", k))
+		if err := os.WriteFile(pf, []byte(fmt.Sprintf("%s\n%s %s %d %s %s\n", root, f.save.typ, f.save.name, f.save.size, f.save.reader, src)), 0o600); err != nil {
+			return err
+		}
+		sg, er, err := runChild(fmt.Sprintf("fault-%d", k), pf, 1, f.inject, f.env)
+		if err != nil {
+			return err
+		}
+		fobs = append(fobs, faultObs{f, sg[0], er[0]})
 	}
 
 	// ---- ParseID on boundary names ----
@@ -486,10 +572,14 @@ func engineC36(c *vctx) error {
 					present = append(present, p.name)
 				}
 			}
+			first := ""
+			if len(present) > 0 {
+				first = present[0]
+			}
 			for k := 0; k < 3; k++ {
 				base := newID()
-				if k == 0 && len(present) > 0 {
-					base = present[0]
+				if k == 0 && first != "" {
+					base = first
 				}
 				stray := base + "-tmp-" + strconv.Itoa(100000+rng.intn(900000000))
 				dir := filepath.Join(root, t)
@@ -502,6 +592,14 @@ func engineC36(c *vctx) error {
 				}
 				present = append(present, stray)
 			}
+			// what the directory really holds (incl. files saved by the fault runs and the strays)
+			present = nil
+			_ = filepath.Walk(filepath.Join(root, t), func(pth string, fi os.FileInfo, err error) error {
+				if err == nil && !fi.IsDir() {
+					present = append(present, filepath.Base(pth))
+				}
+				return nil
+			})
 			var listed []string
 			ft := restic.PackFile
 			if t == "snapshots" {
@@ -548,7 +646,7 @@ func engineC36(c *vctx) error {
 		if i == 0 {
 			lst = coqList(listing)
 		}
-		term := fmt.Sprintf("C36m.mk %s %s %s %s %s %s", target, params, coqList(ops), coqBool(errs[i]), coqList(parse), lst)
+		term := fmt.Sprintf("C36m.mk %s %s %s %s None %s %s", target, params, coqList(ops), coqBool(errs[i]), coqList(parse), lst)
 		sc := "small"
 		switch {
 		case p.size == 0:
@@ -564,6 +662,20 @@ func engineC36(c *vctx) error {
 		c.Hist(fmt.Sprintf("failed-syscalls=%d", min(o.failed, 2)))
 		c.Case(kind, len(o.ops) >= 8, len(o.ops), term,
 			fmt.Sprintf("%s/%s size=%d reader=%s mkdir=%v err=%v: %s", p.typ, p.name[:8], p.size, p.reader, p.mkdir, errs[i], strings.Join(o.human, " ")))
+	}
+	for _, fo := range fobs {
+		p := fo.f.save
+		o := c36Abstract(root, fo.seg)
+		target := fmt.Sprintf("(mktarget 0%%N %s %d%%N)", coqStr(p.name), p.size)
+		params := fmt.Sprintf("(mkparams false %s %d%%N %d%%N %s)", coqStr(o.tmp), o.fd, o.dfd, coqList(o.chunks))
+		ops := make([]string, len(o.ops))
+		for j, t := range o.ops {
+			ops[j] = "(" + t + ")"
+		}
+		term := fmt.Sprintf("C36m.mk %s %s %s %s %s %s []", target, params, coqList(ops), coqBool(fo.err), fo.f.fp,
+			coqList([]string{parsePair(o.tmp)}))
+		c.Case(fo.f.kind+"-"+p.reader, fo.err, len(o.ops), term,
+			fmt.Sprintf("%s/%s size=%d reader=%s fault=%s err=%v: %s", p.typ, p.name[:8], p.size, p.reader, fo.f.kind, fo.err, strings.Join(o.human, " ")))
 	}
 	return nil
 }
